@@ -66,6 +66,7 @@ type termKey struct {
 }
 
 type TermTable struct {
+	NoRewrite bool // build terms literally (self-test of the rewrites)
 	tab  map[termKey]*Term
 	next int
 	vars []*Term
@@ -309,6 +310,31 @@ func (tt *TermTable) Eq(a, b *Term) *Term {
 			return tt.Not(b)
 		}
 	}
+	if a.IsConst() && b.IsConst() {
+		return tt.Bool(a.C == b.C)
+	}
+	if !tt.NoRewrite && a.W > 0 {
+		// ite(c, k1, k2) = k
+		if a.IsConst() {
+			a, b = b, a
+		}
+		if tt.iteConst(a) && b.IsConst() {
+			k1, k2 := a.Args[1].C, a.Args[2].C
+			switch {
+			case k1 == b.C && k2 == b.C:
+				return tt.Bool(true)
+			case k1 == b.C:
+				return a.Args[0]
+			case k2 == b.C:
+				return tt.Not(a.Args[0])
+			default:
+				return tt.Bool(false)
+			}
+		}
+		if r := tt.eqSegs(a, b); r != nil {
+			return r
+		}
+	}
 	if a.ID > b.ID {
 		a, b = b, a
 	}
@@ -373,6 +399,75 @@ func (tt *TermTable) Bin(op Op, a, b *Term) *Term {
 			return a
 		}
 	}
+	if a.IsConst() && b.IsConst() {
+		return tt.app(op, w, 0, a, b)
+	}
+	if !tt.NoRewrite {
+		// push operations with a constant operand into ite(c, k1, k2)
+		if tt.iteConst(a) && b.IsConst() {
+			return tt.Ite(a.Args[0], tt.app(op, w, 0, a.Args[1], b), tt.app(op, w, 0, a.Args[2], b))
+		}
+		if tt.iteConst(b) && a.IsConst() {
+			return tt.Ite(b.Args[0], tt.app(op, w, 0, a, b.Args[1]), tt.app(op, w, 0, a, b.Args[2]))
+		}
+		switch op {
+		case OShl:
+			if b.IsConst() {
+				k := int(b.C)
+				if b.C >= uint64(w) {
+					return tt.Const(w, 0)
+				}
+				segs := tt.sliceSegs(tt.segsOf(a, nil), w-1-k, 0)
+				segs = append(segs, seg{tt.Const(k, 0)})
+				return tt.fromSegs(segs)
+			}
+		case OLshr:
+			if b.IsConst() {
+				k := int(b.C)
+				if b.C >= uint64(w) {
+					return tt.Const(w, 0)
+				}
+				segs := append([]seg{{tt.Const(k, 0)}}, tt.sliceSegs(tt.segsOf(a, nil), w-1, k)...)
+				return tt.fromSegs(segs)
+			}
+		case OBvAnd, OBvOr, OBvXor:
+			if r := tt.bitwise(op, a, b); r != nil {
+				return r
+			}
+		case OAdd:
+			if r := tt.bitwise2(OBvOr, a, b, true); r != nil {
+				return r
+			}
+		case OURem:
+			// x % 2^k
+			if b.IsConst() && b.C&(b.C-1) == 0 && b.C != 0 {
+				return tt.Bin(OBvAnd, a, tt.Const(w, b.C-1))
+			}
+		case OUDiv:
+			if b.IsConst() && b.C&(b.C-1) == 0 && b.C != 0 {
+				k := 0
+				for (uint64(1) << uint(k)) != b.C {
+					k++
+				}
+				return tt.Bin(OLshr, a, tt.Const(w, uint64(k)))
+			}
+		case OMul:
+			if b.IsConst() && b.C&(b.C-1) == 0 {
+				k := 0
+				for (uint64(1) << uint(k)) != b.C {
+					k++
+				}
+				return tt.Bin(OShl, a, tt.Const(w, uint64(k)))
+			}
+			if a.IsConst() && a.C&(a.C-1) == 0 {
+				k := 0
+				for (uint64(1) << uint(k)) != a.C {
+					k++
+				}
+				return tt.Bin(OShl, b, tt.Const(w, uint64(k)))
+			}
+		}
+	}
 	return tt.app(op, w, 0, a, b)
 }
 func (tt *TermTable) Un(op Op, a *Term) *Term { return tt.app(op, a.W, 0, a) }
@@ -381,38 +476,16 @@ func (tt *TermTable) Extract(hi, lo int, a *Term) *Term {
 	if lo == 0 && hi == a.W-1 {
 		return a
 	}
-	switch a.Op {
-	case OConcat:
-		lw := a.Args[1].W
-		if hi < lw {
-			return tt.Extract(hi, lo, a.Args[1])
-		}
-		if lo >= lw {
-			return tt.Extract(hi-lw, lo-lw, a.Args[0])
-		}
-	case OZExt:
-		iw := a.Args[0].W
-		if hi < iw {
-			return tt.Extract(hi, lo, a.Args[0])
-		}
-		if lo >= iw {
-			return tt.Const(hi-lo+1, 0)
-		}
-	case OExtract:
-		ilo := int(a.C & 0xff)
-		return tt.Extract(hi+ilo, lo+ilo, a.Args[0])
+	if tt.NoRewrite {
+		return tt.app(OExtract, hi-lo+1, uint64(hi)<<8|uint64(lo), a)
 	}
-	return tt.app(OExtract, hi-lo+1, uint64(hi)<<8|uint64(lo), a)
+	return tt.fromSegs(tt.sliceSegs(tt.segsOf(a, nil), hi, lo))
 }
 func (tt *TermTable) Concat(a, b *Term) *Term {
-	if a.Op == OExtract && b.Op == OExtract && a.Args[0] == b.Args[0] {
-		ahi, alo := int(a.C>>8), int(a.C&0xff)
-		bhi, blo := int(b.C>>8), int(b.C&0xff)
-		if alo == bhi+1 {
-			return tt.Extract(ahi, blo, a.Args[0])
-		}
+	if tt.NoRewrite {
+		return tt.app(OConcat, a.W+b.W, 0, a, b)
 	}
-	return tt.app(OConcat, a.W+b.W, 0, a, b)
+	return tt.fromSegs(tt.segsOf(b, tt.segsOf(a, nil)))
 }
 func (tt *TermTable) ZExt(a *Term, w int) *Term {
 	if w == a.W {
@@ -421,7 +494,13 @@ func (tt *TermTable) ZExt(a *Term, w int) *Term {
 	if w < a.W {
 		return tt.Extract(w-1, 0, a)
 	}
-	return tt.app(OZExt, w, 0, a)
+	if tt.NoRewrite {
+		return tt.app(OZExt, w, 0, a)
+	}
+	if tt.iteConst(a) {
+		return tt.Ite(a.Args[0], tt.Const(w, a.Args[1].C), tt.Const(w, a.Args[2].C))
+	}
+	return tt.mkZExt(a, w)
 }
 func (tt *TermTable) SExt(a *Term, w int) *Term {
 	if w == a.W {
